@@ -43,7 +43,7 @@ TInit ==
   /\ stopping = FALSE /\ mem = FreshMem /\ wk = FreshWk /\ pc = "idle" /\ cyc = NoCyc
   /\ bud = [edits |-> 0, fails |-> 0, kills |-> 0, stops |-> 0, deletes |-> 0, foreign |-> 0, toggles |-> 0,
             relists |-> 0, holds |-> 0]
-  /\ gh = [succ |-> [h \in H |-> 0], seen |-> [h \in H |-> 0], deldone |-> {}, delagain |-> FALSE, early |-> FALSE,
+  /\ gh = [succ |-> [h \in H |-> 0], seen |-> [h \in H |-> 0], deldone |-> {}, delagain |-> FALSE, early |-> FALSE, early38 |-> FALSE,
            touched |-> FALSE, resumed |-> [h \in H |-> 0], badinv |-> "none", foreignlost |-> FALSE,
            reverted |-> FALSE, leftunmatched |-> FALSE, staleview |-> FALSE,
            ownrv |-> 0, owntime |-> 0, blindwrite |-> FALSE, cseen |-> [h \in H |-> 0], f8 |-> FALSE,
@@ -108,12 +108,13 @@ Advance == /\ l <= Len(T) /\ E.t > now /\ ~ENABLED Urgent
            /\ UNCHANGED <<obj, chan, bl, up, stopping, mem, wk, pc, cyc, bud, gh, conf, tid, l>>
 
 AllInv == InvokeGoverned /\ InvokeCauseOk /\ CloseExactlyWhenDone /\ NeverEarly /\ ForeignUntouched /\ ResumeOnce
-          /\ FreshOrTimedOut /\ RetriesBounded /\ Stealth /\ DaemonStages /\ NoLateAttempt
+          /\ FreshOrTimedOut /\ RetriesBounded /\ Stealth /\ DaemonStages /\ NoLateAttempt /\ ~Family_F38
 FirstBad == IF ~InvokeGoverned THEN "InvokeGoverned" ELSE IF ~InvokeCauseOk THEN "InvokeCauseOk"
             ELSE IF ~CloseExactlyWhenDone THEN "CloseExactlyWhenDone" ELSE IF ~NeverEarly THEN "NeverEarly"
             ELSE IF ~ForeignUntouched THEN "ForeignUntouched" ELSE IF ~ResumeOnce THEN "ResumeOnce"
             ELSE IF ~FreshOrTimedOut THEN "FreshOrTimedOut" ELSE IF ~RetriesBounded THEN "RetriesBounded"
-            ELSE IF ~Stealth THEN "Stealth" ELSE IF ~DaemonStages THEN "DaemonStages" ELSE IF ~NoLateAttempt THEN "NoLateAttempt" ELSE "none"
+            ELSE IF ~Stealth THEN "Stealth" ELSE IF ~DaemonStages THEN "DaemonStages" ELSE IF ~NoLateAttempt THEN "NoLateAttempt"
+            ELSE IF Family_F38 THEN "F38" ELSE "none"
 
 TStep == TEdit \/ TDelete \/ TFin \/ TDeliver \/ TBegin \/ TInv \/ TMerge \/ TJson \/ TEnd \/ TKill \/ TStop \/ TDown
          \/ TList \/ TQuiet \/ TLive \/ TExiting \/ TEnter \/ TSeen \/ TCancel \/ TExit \/ Silent \/ Advance
